@@ -43,6 +43,8 @@ def bigSign (x : Int) : BitVec 64 := bigCmp x 0
 def bigUint64 (x : Int) : BitVec 64 := BitVec.ofNat 64 x.natAbs
 /-- `x.IsUint64()` -/
 def bigIsUint64 (x : Int) : Bool := decide (0 ≤ x ∧ x < 18446744073709551616)
+/-- `x.BitLen()`: the length of |x| in bits, 0 for 0 -/
+def bigBitLen (x : Int) : BitVec 64 := BitVec.ofNat 64 (if x = 0 then 0 else Nat.log2 x.natAbs + 1)
 /-- `z.Quo(x, y)` for y ≠ 0: truncated toward zero (the translator guards y = 0 as a panic) -/
 def bigQuo (x y : Int) : Int := Int.tdiv x y
 /-- `z.Div(x, y)` for y ≠ 0: Euclidean division (remainder ≥ 0) -/
